@@ -421,7 +421,7 @@ fn main() {
     };
     let std_b = [Builder::Push, Builder::Extend, Builder::ConcurrentReverse];
     // (a) all non-decreasing sequences of length <= N over 0..=M
-    let (nmax, vmax) = if t { (8, 16) } else { (6, 14) };
+    let (nmax, vmax) = if t { (9, 17) } else { (6, 14) };
     for n in 0..=nmax {
         let mut seqs = vec![];
         gen(n, vmax, &mut vec![], &mut seqs);
